@@ -143,6 +143,13 @@ def run_c05(rep, tier, seed):
             ys[rng.randrange(npts)] = np.nan
         if rng.random() < 0.15:
             xs[:] = xs[0] if np.isfinite(xs[0]) else 2.0          # all points in one column
+        if j % 6 == 0 and npts >= 3:
+            # a constant with round-off noise (an isothermal temperature): the spread is a few units in the last place
+            base = np.float64(10.0) if j % 12 else np.float32(10.0)
+            lo, hi = np.nextafter(base, base - 1), np.nextafter(base, base + 1)
+            ys = np.array([[lo, base, hi][i % 3] for i in range(npts)], dtype=base.dtype)
+            if logy:
+                ys = ys.astype(base.dtype)
         fin = np.isfinite(xs) & np.isfinite(ys)
         if logx:
             fin &= xs > 0
